@@ -154,7 +154,7 @@ def build(case):
     if rho_h is not None:
         rho[b.index(rho_h)] = float(rng.uniform(0.1, 0.9))
     return {"tip_heights": th, "root": root, "internal": ih, "origin": origin, "b": b, "R": R.tolist(), "delta": delta.tolist(), "s": s.tolist(),
-            "r": None if rv is None else rv.tolist(), "rho": rho, "names": names, "topo": topo, "rho_h": rho_h, "m": m, "style": style}
+            "r": None if rv is None else rv.tolist(), "rho": rho, "names": names, "topo": topo, "rho_h": rho_h, "m": m, "style": style, "short_rho": case["seed"] % 2 == 0}
 
 
 def rates(d):
@@ -187,6 +187,14 @@ def fwd(x):
     return list(reversed(x))
 
 
+def rho_arg(d):
+    """rho as handed to the subject (forward time): every epoch's entry, or - in half of the cases without rho-sampling in the
+    past - the one entry for the present alone, which the library pads with zeros (what torchtree-cli writes)"""
+    if d.get("short_rho") and d["m"] > 1 and not any(d["rho"][1:]):
+        return [d["rho"][0]]
+    return fwd(d["rho"])
+
+
 def lib_direct(d, survival, times="absolute", **override):
     """PiecewiseConstantBirthDeath constructed directly (forward-time ordering of epochs)."""
     import torch
@@ -194,7 +202,7 @@ def lib_direct(d, survival, times="absolute", **override):
 
     lam, mu, psi = rates(d)
     T = lambda v: torch.tensor(v, dtype=torch.float64)
-    kw = dict(rho=T(fwd(d["rho"])), origin=T([d["origin"]]), survival=survival)
+    kw = dict(rho=T(rho_arg(d)), origin=T([d["origin"]]), survival=survival)
     if d["r"] is not None:
         kw["removal_probability"] = T(fwd(d["r"]))
     if times == "absolute":
@@ -224,7 +232,7 @@ def tree_case(d, rng):
 def bdsk_json(d, survival, rng, times="parameter", drop=(), extra=None):
     P = lambda name, v: gm.param("bdsk." + name, v, dtype="torch.float64")
     j = {"id": "bdsk", "type": "BDSKModel", "tree_model": "tree", "R": P("R", fwd(d["R"])), "delta": P("delta", fwd(d["delta"])), "s": P("s", fwd(d["s"])),
-         "rho": P("rho", fwd(d["rho"])), "origin": P("origin", [d["origin"]]), "survival": survival}
+         "rho": P("rho", rho_arg(d)), "origin": P("origin", [d["origin"]]), "survival": survival}
     tl = [d["origin"] - x for x in reversed(d["b"][1:])]
     if times == "parameter":
         j["times"] = P("times", tl)
